@@ -384,6 +384,34 @@ CLEAR = Contract(
     note="cache_clear() forgets every name, cache_clear(name) exactly that name (all three maps), unknown names are ignored")
 REGISTRY.add(CLEAR)
 
+# --- wrap_numbers(): the module-level entry the front ends call ------------------------------------------------------------
+
+def setup_entry(it, cfg):
+    from .frontproc import Lock
+    token = Opaque("what run() returned")
+    inp, nm = Opaque("input_dict"), it.fresh("name", "String")
+
+    def run_stub(it2, input_dict, name):
+        it2.ctx.log.append(("run", input_dict, name))
+        return token
+    wn = Obj("_WrapNumbers", {"lock": Lock(), "run": EnvFunc("run", run_stub)}, module=ModuleSrc.get(COMMON_PY))
+    it.env_over["_wn"] = wn
+    return {"args": {"input_dict": inp, "name": nm}, "spec": {"token": token, "inp": inp, "nm": nm}, "values": [nm]}
+
+
+def p_entry(it, env):
+    """exactly one run(input_dict, name) on the singleton, inside acquire/release of its lock, its result returned"""
+    log = env["log"]
+    ok = len(log) == 3 and log[0] == ("lock", "acquire") and log[2] == ("lock", "release") and log[1][0] == "run" \
+        and log[1][1] is env["inp"] and log[1][2] is env["nm"] and env["result"] is env["token"]
+    return B(bool(ok))
+
+
+ENTRY = Contract("C10", COMMON_PY, "wrap_numbers", setup=setup_entry, env=ENV, ensures=[p_entry], raises={}, canaries=[],
+                 replay="c10:entry", note="wrap_numbers(d, name) is _wn.run(d, name) under _wn.lock: the link between the front-end "
+                                   "contracts (which log the call of the filter) and the step contract of run()")
+REGISTRY.add(ENTRY)
+
 WN = Contract("C10", COMMON_PY, "_WrapNumbers.run", env=ENV,
               ensures=["per name and key: out = raw + offset, offset grows by the previous raw value at each decrease; a key "
                        "that disappears loses its offsets; first call and new keys return raw; other names untouched"],
